@@ -61,16 +61,16 @@ func UnixMilli(ms int64) time.Time   { return time.UnixMilli(ms) }
 func Date(y int, m time.Month, d, h, mi, s, ns int, loc *time.Location) time.Time {
 	return time.Date(y, m, d, h, mi, s, ns, loc)
 }
-func Parse(layout, value string) (time.Time, error)    { return time.Parse(layout, value) }
-func ParseDuration(s string) (time.Duration, error)    { return time.ParseDuration(s) }
+func Parse(layout, value string) (time.Time, error) { return time.Parse(layout, value) }
+func ParseDuration(s string) (time.Duration, error) { return time.ParseDuration(s) }
 func ParseInLocation(l, v string, loc *time.Location) (time.Time, error) {
 	return time.ParseInLocation(l, v, loc)
 }
 
 // Real-time passthroughs (not used by the decisions under test; present so that an edited
 // tree that starts using them still builds).
-func Sleep(d time.Duration)                         { time.Sleep(d) }
-func After(d time.Duration) <-chan time.Time        { return time.After(d) }
-func NewTimer(d time.Duration) *time.Timer          { return time.NewTimer(d) }
-func NewTicker(d time.Duration) *time.Ticker        { return time.NewTicker(d) }
+func Sleep(d time.Duration)                           { time.Sleep(d) }
+func After(d time.Duration) <-chan time.Time          { return time.After(d) }
+func NewTimer(d time.Duration) *time.Timer            { return time.NewTimer(d) }
+func NewTicker(d time.Duration) *time.Ticker          { return time.NewTicker(d) }
 func AfterFunc(d time.Duration, f func()) *time.Timer { return time.AfterFunc(d, f) }
